@@ -1366,6 +1366,13 @@ size_t ZSTD_CCtx_reset(ZSTD_CCtx* cctx, ZSTD_ResetDirective reset)
 {
     if ( (reset == ZSTD_reset_session_only)
       || (reset == ZSTD_reset_session_and_parameters) ) {
+#ifdef ZSTD_MULTITHREAD
+        if (cctx->mtctx != NULL && cctx->streamStage != zcss_init) {
+            /* workers may still be compressing the abandoned frame : they read the dictionary and the prefix,
+             * which the caller is entitled to release or replace once the session is reset */
+            ZSTDMT_waitForAllJobsCompleted(cctx->mtctx);
+        }
+#endif
         cctx->streamStage = zcss_init;
         cctx->pledgedSrcSizePlusOne = 0;
         cctx->stableIn_notConsumed = 0;   /* input accepted but not yet compressed belongs to the abandoned session */
